@@ -107,6 +107,9 @@ def run(sid, props):
             print(f'[{sid}] {p}: exit {rc} {vio[0] if vio else "(no violation reported)"}')
     finally:
         sh(['git', '-C', '/repo', 'checkout', '--', '.'])
+        # the translators regenerated Generated/*.lean from the broken tree: regenerate them from the restored source
+        sh(['python3', os.path.join(ROOT, 'tools', 'formulas.py')], cwd=ROOT)
+        sh(['python3', os.path.join(ROOT, 'tools', 'extract.py'), 'karate'], cwd=ROOT)
     mp = os.path.join(dst, 'meta.json')
     meta = json.load(open(mp)) if os.path.exists(mp) else {}
     meta.setdefault('checks_run', {}).update(results)
